@@ -1,7 +1,7 @@
 (* Real-number lemmas for M_viewing.v (C12). *)
 From Coq Require Import ZArith Reals Lra Psatz List Bool Lia Nsatz.
 From PW Require Import Num NumR Vec Mat Result.
-From PW.model Require Import M_viewing.
+From PW.model Require Import M_viewing M_viewing_spec.
 From PW.proofs Require Import P_vec P_mat.
 Import ListNotations.
 Local Open Scope R_scope.
@@ -204,10 +204,6 @@ Lemma ortho_apply w h n f x y z : 0 < w -> 0 < h -> n < f ->
   = V3 (2 * x / w) (2 * y / h) ((- 2 * z - (f + n)) / (f - n)).
 Proof. intros. viewunf. apply V3_inj; munf; field; lra. Qed.
 
-Definition in_view_box (w h n f : R) (p : vec3 R) : Prop :=
-  - w / 2 <= vx p <= w / 2 /\ - h / 2 <= vy p <= h / 2 /\ - f <= vz p <= - n.
-Definition in_cube (p : vec3 R) : Prop :=
-  -1 <= vx p <= 1 /\ -1 <= vy p <= 1 /\ -1 <= vz p <= 1.
 
 Lemma scaled_interval c x lo hi : 0 < c -> (lo <= x <= hi <-> lo * c <= x * c <= hi * c).
 Proof. intros Hc. split; intros [A B]; split; nra. Qed.
@@ -350,6 +346,37 @@ Proof.
   destruct (w2v_degenerate ROps p t (V3 0 1 0)); [discriminate|reflexivity].
 Qed.
 
-(* domain of world_to_view: camera position and target differ, up is not parallel to the viewing direction *)
-Definition camera_ok (position target up : vec3 R) : Prop :=
-  target <> position /\ vcross ROps (vsub ROps target position) up <> V3 0 0 0.
+
+(* ---------------------------------------------------------------------------------------------- *)
+(* canvas through the FUNCTION-level definitions (with their error / NaN outcomes): whenever the canvas function returns a
+   matrix, the three public stage functions called with (position, target, default up), (w/zoom, h/zoom, 0.1, 2000) and
+   (x_right = w, y_bottom = h, 0, 0) return matrices too, and the canvas matrix is their product in order *)
+Lemma canvas_is_product_of_function_results w h p t zoom inv m :
+  world_to_canvas ROps w h p t zoom inv = Ok (Some m) ->
+  exists a b c,
+    world_to_view ROps p t (V3 0 1 0) inv = Some a /\
+    view_to_orthographic_projection ROps (w / zoom) (h / zoom) (1 / 10) 2000 inv = Ok b /\
+    viewport_transform ROps w h 0 0 inv = Ok c /\
+    m = if inv then mmul ROps (mmul ROps a b) c else mmul ROps (mmul ROps c b) a.
+Proof.
+  unfold world_to_canvas, world_to_view. change (basis_y ROps) with (V3 0 1 0).
+  unfold is0 at 1 2 3. unfold n0; rops.
+  destruct (Reqb_spec zoom 0) as [|Hz]; [discriminate|].
+  destruct (Reqb_spec w 0) as [|Hw]; [discriminate|].
+  destruct (Reqb_spec h 0) as [|Hh]; [discriminate|]. cbn [orb].
+  destruct (w2v_degenerate ROps p t (V3 0 1 0)); [discriminate|].
+  intros E. injection E as <-.
+  assert (Hwz : w / zoom <> 0) by (unfold Rdiv; apply Rmult_integral_contrapositive_currified; [exact Hw | apply Rinv_neq_0_compat, Hz]).
+  assert (Hhz : h / zoom <> 0) by (unfold Rdiv; apply Rmult_integral_contrapositive_currified; [exact Hh | apply Rinv_neq_0_compat, Hz]).
+  exists (w2v_mat ROps p t (V3 0 1 0) inv), (ortho_mat ROps (w / zoom) (h / zoom) (1 / 10) 2000 inv),
+         (viewport_mat ROps w h 0 0 inv).
+  split; [reflexivity|]. split.
+  - unfold view_to_orthographic_projection, is0, n0; rops.
+    destruct (Reqb_spec (2000 - 1 / 10) 0); [lra|].
+    destruct (Reqb_spec (w / zoom) 0); [contradiction|]. destruct (Reqb_spec (h / zoom) 0); [contradiction|].
+    destruct inv; reflexivity.
+  - split.
+    + unfold viewport_transform, is0, n0; rops.
+      destruct (Reqb_spec (w - 0) 0); [lra|]. destruct (Reqb_spec (0 - h) 0); [lra|]. destruct inv; reflexivity.
+    + destruct inv; reflexivity.
+Qed.
